@@ -1,6 +1,7 @@
 package main
 
 import (
+	"syscall"
 	"sync"
 	"path/filepath"
 	"io"
@@ -36,6 +37,7 @@ type runCtx struct {
 	caseNo  int64
 	nodes   []mimetype.VerifNode
 	current atomic.Value // string: description of the case being executed (for the watchdog)
+	startedCPU atomic.Int64 // CPU time of the process when the case started
 	started atomic.Int64
 }
 
@@ -151,7 +153,17 @@ func (c *runCtx) mine(key ...[]byte) bool {
 
 func (c *runCtx) watch(desc string) {
 	c.current.Store(desc)
+	c.startedCPU.Store(int64(cpuTime()))
 	c.started.Store(time.Now().UnixNano())
+}
+
+// user + system CPU time of this process
+func cpuTime() time.Duration {
+	var ru syscall.Rusage
+	if err := syscall.Getrusage(syscall.RUSAGE_SELF, &ru); err != nil {
+		return 0
+	}
+	return time.Duration(ru.Utime.Nano() + ru.Stime.Nano())
 }
 
 func (c *runCtx) startWatchdog() {
@@ -160,7 +172,11 @@ func (c *runCtx) startWatchdog() {
 		for {
 			time.Sleep(500 * time.Millisecond)
 			st := c.started.Load()
-			if st != 0 && time.Since(time.Unix(0, st)) > 20*time.Second {
+			// a hang is a case that has not returned after 20 s of wall-clock time during which this process itself
+			// burnt at least 12 s of CPU (a spinning loop), or after 120 s whatever it did (a blocked call); wall-clock
+			// time alone would turn a busy machine (other checks running next to this one) into a false alarm
+			if st != 0 && time.Since(time.Unix(0, st)) > 20*time.Second &&
+				(cpuTime()-time.Duration(c.startedCPU.Load()) > 12*time.Second || time.Since(time.Unix(0, st)) > 120*time.Second) {
 				d, _ := c.current.Load().(string)
 				c.out.Flush()
 				fmt.Printf("!propfail\tC01\thang: no return after 20s: %s\n", d)
